@@ -19,6 +19,7 @@ BUDGET = dict(quick=dict(runs=640, wall=75, per_run_wall=60), thorough=dict(runs
 class C01Spec(Spec):
     prop = PROP
     invariants = INVARIANTS
+    churn_share = 0.4          # share of leader-churn runs (sched.apply_churn); 0 in specs that build on this draw
 
     def draw(self, rng, tier='quick'):
         cfg = draw_common(rng, compaction=(rng.random() < 0.8))
@@ -39,6 +40,9 @@ class C01Spec(Spec):
         s['w_sub'] = rng.choice([0.2, 0.35, 0.8])
         s['steps'] = 8000 if tier == 'thorough' else 5000
         s['max_subs'] = 250 if tier == 'thorough' else 150
+        if self.churn_share and rng.random() < self.churn_share:
+            apply_churn(rng, cfg)
+            cfg['n_voters'] = rng.choice([3, 3, 3, 5])
         return cfg
 
     def nontrivial(self, res):
